@@ -194,6 +194,10 @@ def conflict_rules(rep: Report, prog: Program) -> None:
             continue
         hdr = cfg.node_of(lp)
         a, b = [norm(x) for x in lp.target.elts]
+        from ..util import check_raise_type
+        for rn in sorted(raises):
+            if isinstance(cfg.nodes[rn].stmt, ast.Raise):
+                check_raise_type(rep, 'C17-D3 conflict-reporting exception type', prog, f, cfg.nodes[rn].stmt, 'ValueError', 'label conflict')
         atoms: Dict[str, ast.AST] = {}
         for n in cfg.loop_body[hdr]:
             if cfg.nodes[n].kind == 'test':
